@@ -37,7 +37,7 @@ def case_strategy(draw, name):
   else:
     c['opt'] = draw(st.sampled_from(['triplet_diffs', 'array', 'lda']))
     c['kg'] = draw(st.integers(1, 3))
-    c['ki'] = draw(st.integers(1, 4))
+    c['ki'] = draw(st.one_of(st.integers(1, 4), st.integers(1, 4), st.sampled_from([6, 9, 15])))   # also above what small classes offer
     c['n_basis'] = draw(st.integers(d, 12))
   c['weights'] = draw(st.booleans())
   return c
